@@ -39,11 +39,24 @@ class SlurryFx:
                 else:
                     self.methods[n.name] = n
 
+    @staticmethod
+    def unconditional_prefix(fn):
+        """the statements of `fn` that are executed on every call: the leading run of plain assignments (a docstring may precede them)"""
+        out = []
+        for st in fn.body:
+            if isinstance(st, ast.Expr) and isinstance(st.value, ast.Constant) and isinstance(st.value.value, str):
+                continue
+            if not isinstance(st, ast.Assign):
+                break
+            out.append(st)
+        return out
+
     def flags_raised(self, fn, seen=None):
-        """flags set to True by `fn` (transitively through assignments to other properties with setters)"""
+        """flags set to True by `fn` on EVERY call (transitively through assignments to other properties with setters): only the leading run of
+        plain assignments counts - a flag raised inside an `if`, or after a statement that can leave the setter, is not raised for every edit"""
         seen = seen or set()
         out = set()
-        for x in ast.walk(fn):
+        for x in self.unconditional_prefix(fn):
             if isinstance(x, ast.Assign):
                 for t in x.targets:
                     if self_attr(t):
@@ -102,6 +115,16 @@ class SlurryFx:
                 raises[p] |= self.flags_raised(fn)
             fx.setdefault('setter_params', {})[name] = sorted(ps)
         fx['raises'] = {p: sorted(v) for p, v in sorted(raises.items())}
+        # mutable containers held by the CLASS (shared by every slurry object, also by objects with other parameters): none may exist
+        fx['class_level_state'] = sorted(
+            (t.id if isinstance(t, ast.Name) else ast.unparse(t))
+            for n in self.cls.body if isinstance(n, (ast.Assign, ast.AnnAssign)) and n.value is not None
+            and (isinstance(n.value, (ast.Dict, ast.List, ast.Set, ast.ListComp, ast.DictComp, ast.SetComp))
+                 or (isinstance(n.value, ast.Call) and ast.unparse(n.value.func).split('.')[-1] in
+                     ('dict', 'list', 'set', 'defaultdict', 'OrderedDict', 'deque', 'Counter', 'WeakValueDictionary', 'WeakKeyDictionary', 'lru_cache')))
+            for t in (n.targets if isinstance(n, ast.Assign) else [n.target]))
+        # no setter can be left before its end (an early `return` / `raise` / `try` makes the assignments after it conditional)
+        fx['setters_no_early_exit'] = not any(isinstance(x, (ast.Return, ast.Raise, ast.Try)) for fn in self.setters.values() for x in ast.walk(fn))
         g = self.methods['generate_GSD']
         gs = self.first_stmts(g)
         # structure of generate_GSD: clears its flag first, raises the curves flag, rebuilds from create_fracs
@@ -125,6 +148,15 @@ class SlurryFx:
         clears = [i for i, s in enumerate(cs) if isinstance(s, ast.Assign) and self_attr(s.targets[0])
                   and s.targets[0].attr == 'curves_dirty' and isinstance(s.value, ast.Constant) and s.value.value is False]
         assigned = [s.targets[0].attr for s in cs if isinstance(s, ast.Assign) and self_attr(s.targets[0])]
+        # every curve artefact is bound to a NEWLY built object (a call of one of the class's own generate_* methods, or a comprehension): an artefact that is
+        # refreshed in place, or routed through a helper that may hand the old object back, is shared with every shallow copy of the slurry
+        def fresh_value(v):
+            return isinstance(v, (ast.ListComp, ast.DictComp, ast.Dict, ast.List)) or (
+                isinstance(v, ast.Call) and isinstance(v.func, ast.Attribute) and self_attr(v.func) and v.func.attr.startswith('generate_'))
+        fx['curves_rebind_fresh_objects'] = all(fresh_value(s.value) for s in cs if isinstance(s, ast.Assign) and self_attr(s.targets[0])
+                                                and s.targets[0].attr in CURVE_FIELDS) and not any(
+            isinstance(x, ast.Call) and isinstance(x.func, ast.Attribute) and self_attr(x.func.value) and x.func.value.attr in CURVE_FIELDS
+            and x.func.attr in ('clear', 'update', 'append', 'extend', 'pop', 'setdefault', 'insert', 'remove') for x in ast.walk(c))
         fx['curves_regenerates_all_unconditionally'] = bool(clears) and all(f in assigned for f in CURVE_FIELDS) and \
             not any(isinstance(s, (ast.If, ast.Try, ast.While, ast.For)) for s in cs[1:])
         rc = self.reads(c, stop_at=('generate_GSD',))
@@ -428,8 +460,9 @@ def main(repo, outdir):
                  + ', '.join(f'({json.dumps(p)}, {lean_str_list(v)})' for p, v in fx['raises'].items()) + ']')
     lines.append(f'def slurryReadsGsd : List String := {lean_str_list(fx["reads_gsd"])}')
     lines.append(f'def slurryReadsCurves : List String := {lean_str_list(fx["reads_curves"])}')
+    lines.append(f'def slurryClassLevelState : List String := {lean_str_list(fx["class_level_state"])}')
     for k in ('gsd_clears_flag_first', 'gsd_raises_curves', 'gsd_rebinds_fresh_dict', 'curves_checks_gsd',
-              'curves_regenerates_all_unconditionally', 'curves_read_gsd', 'getters_guarded', 'pointwise_use_guarded_getters'):
+              'curves_regenerates_all_unconditionally', 'curves_read_gsd', 'getters_guarded', 'pointwise_use_guarded_getters', 'setters_no_early_exit', 'curves_rebind_fresh_objects'):
         lines.append(f'def {k} : Bool := {"true" if fx[k] else "false"}')
     lines.append('')
     lines.append('/-- (module.function, cached?, key parameters, module-level mutable names read transitively and not passed in the key, hands out a cached mutable container) -/')
